@@ -2,6 +2,7 @@ package scen
 
 import (
 	"fmt"
+	"strings"
 	"unicode/utf8"
 
 	"github.com/kstenerud/go-concise-encoding/ce"
@@ -219,6 +220,16 @@ func c11DeliverEvents(e *Env, pos int, mid []rec.Ev, cfg *configuration.Configur
 		evs = append(evs, rec.Ev{K: rec.KMap}, rec.Ev{K: rec.KPositiveInt, U: 1})
 	case 3:
 		evs = append(evs, rec.Ev{K: rec.KMap})
+	case 4:
+		// marked map keys: another marked, chunked key first, then the array
+		// under test as a marked key, then a plain key - the map's own
+		// bookkeeping (what it records as each key) must not depend on the
+		// delivery form either
+		evs = append(evs, rec.Ev{K: rec.KMap},
+			rec.Ev{K: rec.KMarker, S: []byte("ma")}, rec.Ev{K: rec.KArrayBegin, AT: events.ArrayTypeString},
+			rec.Ev{K: rec.KArrayChunk, U: 9, B: false}, rec.Ev{K: rec.KArrayData, S: []byte("other")}, rec.Ev{K: rec.KArrayData, S: []byte("-key")},
+			rec.Ev{K: rec.KTrue},
+			rec.Ev{K: rec.KMarker, S: []byte("mb")})
 	}
 	evs = append(evs, mid...)
 	switch pos {
@@ -228,6 +239,10 @@ func c11DeliverEvents(e *Env, pos int, mid []rec.Ev, cfg *configuration.Configur
 		evs = append(evs, rec.Ev{K: rec.KEndContainer})
 	case 3:
 		evs = append(evs, rec.Ev{K: rec.KNull}, rec.Ev{K: rec.KEndContainer})
+	case 4:
+		evs = append(evs, rec.Ev{K: rec.KNull},
+			rec.Ev{K: rec.KArray, AT: events.ArrayTypeString, U: 5, S: []byte("plain")}, rec.Ev{K: rec.KFalse},
+			rec.Ev{K: rec.KEndContainer})
 	}
 	evs = append(evs, rec.Ev{K: rec.KEndDocument})
 	var err error
@@ -238,15 +253,18 @@ func c11DeliverEvents(e *Env, pos int, mid []rec.Ev, cfg *configuration.Configur
 	return err == nil && p == nil, rc.Evs, p
 }
 
-var c11Positions = []string{"top-level", "list element", "map value", "map key"}
+var c11Positions = []string{"top-level", "list element", "map value", "map key", "marked map key after another marked chunked key"}
 
 func runC11(e *Env) Outcome {
 	t := e.T
 	cfg := configurationDefault
 	a := drawC11Array(t)
-	pos := t.Intn("position", 4)
-	if pos == 3 && !(a.Kind == rec.KArrayBegin && (a.AT == events.ArrayTypeString || a.AT == events.ArrayTypeResourceID)) {
+	pos := t.Intn("position", 5)
+	if pos >= 3 && !(a.Kind == rec.KArrayBegin && (a.AT == events.ArrayTypeString || a.AT == events.ArrayTypeResourceID)) {
 		pos = 1
+	}
+	if pos == 4 && (string(a.Payload) == "other-key" || string(a.Payload) == "plain" || len(a.Payload) == 0) {
+		pos = 3 // would be a duplicate (or empty) key for reasons of its own
 	}
 	sc := &c11Scenario{Array: describeArray(a), Payload: fmt.Sprintf("%x", a.Payload), Position: c11Positions[pos]}
 	sig := Hash("c11", a.Kind, a.AT, a.Media, a.Custom, a.Payload, a.Elems, pos)
@@ -305,6 +323,10 @@ func runC11(e *Env) Outcome {
 				if ev.K == rec.KArrayData {
 					payload = append(payload, ev.S...)
 				}
+			}
+			if pos == 4 {
+				// the other marked key's own data events come first
+				payload = []byte(strings.TrimPrefix(string(payload), "other-key"))
 			}
 			var delivered []byte
 			for _, st := range steps {
